@@ -104,7 +104,115 @@ class _NoDecide(Hooks):
 
 
 def _integrate(model):
-    return model.func(BASE_SOLVER, "BaseSDESolver.integrate")
+    fi = model.func(BASE_SOLVER, "BaseSDESolver.integrate")
+    if not getattr(fi, "_canonical_locals", False):
+        canonicalise_locals(fi)
+        fi._canonical_locals = True
+    return fi
+
+
+def canonicalise_locals(fi):
+    """The rules below talk about the loop state by role (curr_t, prev_y, step_size, ...).  The roles are inferred from
+    what *defines* them -- how the prologue initialises a local, which local the stepping loop tests, which one is handed
+    to self.step -- and the function's AST (in memory only) is alpha-renamed to the role names, so that a consistent
+    renaming of integrate's local variables changes nothing.  A role that cannot be inferred is left alone (the rules
+    then fail with an analysis error, as before)."""
+    node = fi.node
+    params = [a.arg for a in node.args.args]
+    if len(params) < 4:
+        return
+    p_self, p_y0, p_ts, p_extra0 = params[0], params[1], params[2], params[3]
+    body = [s for s in node.body if not (isinstance(s, ast.Expr) and isinstance(s.value, ast.Constant))]
+    fors = [s for s in body if isinstance(s, ast.For)]
+    if len(fors) != 1 or not isinstance(fors[0].target, ast.Name):
+        return
+    f = fors[0]
+    prologue = body[:body.index(f)]
+    roles = {f.target.id: "out_t"}
+
+    def init_values():
+        out = {}
+        for st in prologue:
+            if isinstance(st, ast.Assign):
+                for t in st.targets:
+                    if isinstance(t, ast.Name):
+                        out.setdefault(t.id, st.value)
+                    elif isinstance(t, ast.Tuple) and isinstance(st.value, ast.Tuple) and len(t.elts) == len(st.value.elts):
+                        for a, b in zip(t.elts, st.value.elts):
+                            if isinstance(a, ast.Name):
+                                out.setdefault(a.id, b)
+        return out
+    inits = init_values()
+    # chase one level of local-to-local initialisation (x = y = ts[0] is one Assign; `b = a` is another idiom)
+    def root(v, depth=0):
+        while isinstance(v, ast.Name) and v.id in inits and depth < 4:
+            v = inits[v.id]
+            depth += 1
+        return v
+    by_kind = {}
+    for name, v in inits.items():
+        v = root(v)
+        txt = ast.unparse(v)
+        if txt == f"{p_self}.dt":
+            by_kind.setdefault("step_size", []).append(name)
+        elif txt == p_extra0:
+            by_kind.setdefault("curr_extra", []).append(name)
+        elif isinstance(v, ast.Constant) and v.value is None:
+            by_kind.setdefault("prev_error_ratio", []).append(name)
+        elif isinstance(v, ast.List):
+            by_kind.setdefault("ys", []).append(name)
+        elif txt == f"{p_ts}[0]":
+            by_kind.setdefault("t", []).append(name)
+        elif txt == p_y0:
+            by_kind.setdefault("y", []).append(name)
+    for role in ("step_size", "curr_extra", "prev_error_ratio", "ys"):
+        if len(by_kind.get(role, [])) == 1:
+            roles[by_kind[role][0]] = role
+    whiles = [s for s in f.body if isinstance(s, ast.While)]
+    w = whiles[0] if len(whiles) == 1 else None
+    if w is not None and isinstance(w.test, ast.Compare) and len(w.test.ops) == 1:
+        sides = [w.test.left, w.test.comparators[0]]
+        cands = [x.id for x in sides if isinstance(x, ast.Name) and x.id != f.target.id]
+        ts_like = by_kind.get("t", [])
+        if len(cands) == 1 and cands[0] in ts_like and len(ts_like) == 2:
+            roles[cands[0]] = "curr_t"
+            roles[[x for x in ts_like if x != cands[0]][0]] = "prev_t"
+    ys_like = by_kind.get("y", [])
+    if w is not None and len(ys_like) == 2:
+        passed = set()
+        for c in ast.walk(w):
+            if isinstance(c, ast.Call) and isinstance(c.func, ast.Attribute) and c.func.attr == "step" \
+                    and isinstance(c.func.value, ast.Name) and c.func.value.id == p_self and len(c.args) >= 3 \
+                    and isinstance(c.args[2], ast.Name) and c.args[2].id in ys_like:
+                passed.add(c.args[2].id)
+        if len(passed) == 1:
+            cy = passed.pop()
+            roles[cy] = "curr_y"
+            roles[[x for x in ys_like if x != cy][0]] = "prev_y"
+    inv = {v: k for k, v in roles.items()}
+    if w is not None and "curr_t" in inv and "step_size" in inv:
+        for st in w.body:
+            if isinstance(st, ast.Assign) and len(st.targets) == 1 and isinstance(st.targets[0], ast.Name):
+                names = {n.id for n in ast.walk(st.value) if isinstance(n, ast.Name)}
+                if inv["curr_t"] in names and inv["step_size"] in names and st.targets[0].id not in roles:
+                    roles[st.targets[0].id] = "next_t"
+                    break
+        for st in ast.walk(w):
+            if isinstance(st, ast.Assign) and isinstance(st.value, ast.Call) and \
+                    ast.unparse(st.value.func).endswith("compute_error") and len(st.targets) == 1 and \
+                    isinstance(st.targets[0], ast.Name) and st.targets[0].id not in roles:
+                roles[st.targets[0].id] = "error_estimate"
+    mapping = {k: v for k, v in roles.items() if k != v}
+    if not mapping:
+        return
+    taken = {n.id for n in ast.walk(node) if isinstance(n, ast.Name)} | set(params)
+    for k, v in mapping.items():
+        if v in taken and v not in mapping:
+            raise AnalysisError(f"integrate: cannot name the local `{k}` by its role `{v}`: the name is used for something else",
+                                where=f"{fi.module.relpath}:{node.lineno}")
+    for n in ast.walk(node):
+        if isinstance(n, ast.Name) and n.id in mapping:
+            n.id = mapping[n.id]
 
 
 def loop_structure(model):
